@@ -1,6 +1,20 @@
-"""C05 — failure detection classes and shard availability follow report history.  db engine (+ scheduler engine, see c05 part 2)."""
+"""C05 — failure detection classes and shard availability follow report history.
+
+Two ties to the implementation:
+  db engine       the real DB state machine on PRNG view traces and directed timelines; monitors: mon_view (time, availability
+                  = strict majority of healthy members as read from the context) and mon_c05 below (the stored times as a
+                  function of the report HISTORY, host times); then the Gallina model on the same traces.
+  classes engine  every SCHEDULER_CONTEXT answer the DB produced (plus hand-built boundary contexts) is decoded like the
+                  scheduler does and the REAL classification code (getOkReplicas/getFailedReplicas/getReplicasToStart, quorum,
+                  available, getShardForRepair, getUnavailableShards, nodeHostSpec.available, liveFilter) is evaluated on it
+                  (harness/go/root/zz_verif_classes_test.go); monitor = the class spec; then coq/theories/DBClassesRun.v."""
+import json
 from vlib import *
 import dbengine, dbgen, dbprops
+from dbengine import ctx_struct
+from dbprops import panicked, val, CMD
+
+BOUNDARY_RUNS = (11, 12, 13)
 
 
 def nontrivial(ops, obs):
@@ -9,26 +23,387 @@ def nontrivial(ops, obs):
     for op in ops:
         if op[0] == "T":
             run_ += 1
-        else:
-            if run_ in (11, 12, 13):
+        elif op[0] in CMD:
+            if run_ in BOUNDARY_RUNS:
                 return True
             run_ = 0
-    return False
+    return run_ in BOUNDARY_RUNS
+
+
+# ------------------------------------------------------------------ directed timelines
+def gen_timeline(rng, length=14):
+    """one shard of 1..6 members (even sizes included) on distinct hosts; members that never report, hosts that stop and resume,
+    tick runs of ttl/step-1, ttl/step, ttl/step+1 between rounds of reports, reports at time 0, entries naming a replica that
+    lives on another host; context and state observed after every event"""
+    n = rng.randint(1, 6)
+    H = rng.randint(n, 6)
+    hosts = list(range(1, H + 1))
+    addrs = rng.sample(hosts, n)
+    members = {10 + i: a for i, a in enumerate(addrs)}
+    v = rng.choice([1, 3])
+    q = [("LC",), ("LT", [1])]
+    ops = [("S", 0, 1, 1, sorted(members))] + dbgen.ticks(rng.choice([0, 0, 1, 2]))
+
+    def rep(a, complete=True, other=None):
+        infos = []
+        for rid, ad in sorted(members.items()):
+            if ad == a:
+                infos.append(dict(shard=1, replica=rid, leader=False, cci=v, incomplete=not complete, pending=False,
+                                  members=sorted(members.items()) if complete else []))
+        if other is not None:
+            infos.append(dict(shard=1, replica=other, leader=False, cci=v, incomplete=True, pending=False, members=[]))
+        return ("R", dict(addr=a, rpc=100 + a, region=1, plog_incl=False, plog=[], shard_ids=[1] if infos else [], infos=infos))
+
+    silent = set(a for a in addrs if rng.random() < 0.25)          # their replicas never report
+    talk = [a for a in hosts if a not in silent]
+    announcer = rng.choice([a for a in addrs if a not in silent] or addrs)
+    silent.discard(announcer)
+    if announcer not in talk:
+        talk.append(announcer)
+    ops += [rep(announcer)] + q
+    alive = set(talk)
+    K = dbgen.TTL // dbgen.STEP
+    for _ in range(length):
+        x = rng.random()
+        if x < 0.42:
+            k = rng.choice([1, 2, K - 1, K, K, K + 1])
+            for i in range(k):
+                ops.append(("T",))
+                if i >= k - 2 or rng.random() < 0.15:
+                    ops += q
+        elif x < 0.52:
+            a = rng.choice(talk)                                    # stop / resume
+            if a in alive and len(alive) > 1:
+                alive.discard(a)
+            else:
+                alive.add(a)
+        elif x < 0.60 and len(members) > 1:
+            a = rng.choice(sorted(alive))                           # an entry for a replica living on ANOTHER host
+            others = [rid for rid, ad in members.items() if ad != a]
+            if others:
+                ops += [rep(a, complete=rng.random() < 0.5, other=rng.choice(others))] + q
+        else:
+            for a in sorted(alive):
+                if rng.random() < 0.8:
+                    ops += [rep(a, complete=rng.random() < 0.7)] + q
+    ops += q + [("H",)]
+    return ops
+
+
+# ------------------------------------------------------------------ history monitor
+def mon_c05(ops, obs, eng):
+    """C05_class_spec / C05_host_last_report as an oracle over the history: the first-seen and last-report times of every member and
+    the report time of every host, as shown in the scheduler context, must be the function of the commands applied so far that the
+    property states.  Membership itself is taken from the context (that is C04's subject)."""
+    out = []
+    step = eng.params[1]
+    tick = 0
+    exp = {}            # (shard, rid) -> (first, last) at the previous context observation
+    since = []          # (report, time) applied since then
+    host_last = {}      # addr -> time of its last report
+    for oi, op in enumerate(ops):
+        r = obs.get(oi)
+        if r is None:
+            continue
+        if op[0] in CMD and panicked(r):
+            break
+        if op[0] == "T":
+            tick += step
+            if val(r) != tick:
+                out.append((oi, "tick command returned %s, logical time must be %d" % (val(r), tick)))
+        elif op[0] == "R":
+            since.append((op[1], tick))
+            host_last[op[1]["addr"]] = tick
+        elif op[0] == "LC" and not panicked(r):
+            c = ctx_struct(r)
+            if c is None:
+                continue
+            if c["tick"] != tick:
+                out.append((oi, "logical time is %d, expected %d after the ticks so far" % (c["tick"], tick)))
+            for a, h in sorted(c["hosts"].items()):
+                if a not in host_last:
+                    out.append((oi, "NodeHost %d is known although it never reported" % a))
+                elif h["tick"] != host_last[a]:
+                    out.append((oi, "NodeHost %d carries report time %d, its last report was processed at %d" % (a, h["tick"], host_last[a])))
+            for a in sorted(host_last):
+                if a not in c["hosts"]:
+                    out.append((oi, "NodeHost %d reported but is not known" % a))
+            now = {}
+            for s, sv in c["view"].items():
+                for rid, n in sv["reps"].items():
+                    now[(s, rid)] = (n["first"], n["tick"])
+            if len(since) <= 1:
+                for (s, rid), got in sorted(now.items()):
+                    if not since:
+                        cand = [exp[(s, rid)]] if (s, rid) in exp else []
+                        why = "no report was processed since the previous observation"
+                    else:
+                        rr, t = since[0]
+                        names = any(ci["shard"] == s and ci["replica"] == rid for ci in rr["infos"])
+                        multi = sum(1 for ci in rr["infos"] if ci["shard"] == s and not ci["pending"] and not ci["incomplete"]) >= 2
+                        fresh = (t, t if names else 0)
+                        if (s, rid) in exp:
+                            f0, l0 = exp[(s, rid)]
+                            cand = [(f0, t if names else l0)] + ([fresh] if multi else [])
+                        else:
+                            cand = [fresh]
+                        why = "the report processed at time %d from address %d %s it" % (t, rr["addr"], "lists" if names else "does not list")
+                    if got not in cand:
+                        out.append((oi, "member %d of shard %d has (first seen, last report) = %s, the history dictates %s (%s; before: %s)" % (
+                            rid, s, got, cand, why, exp.get((s, rid)))))
+                if not since and set(exp) != set(now):
+                    out.append((oi, "membership changed without a report"))
+            exp, since = now, []
+        if out:
+            break
+    return out
+
+
+# ------------------------------------------------------------------ classes engine
+def ctx_of_json(js):
+    c = json.loads(js)
+    now = dbengine.i_(c.get("Tick"))
+    shards = []
+    for k, s in sorted(((c.get("ShardImage") or {}).get("Shards") or {}).items(), key=lambda kv: int(kv[0])):
+        reps = sorted((int(rk), dbengine.i_(rv.get("Tick")), dbengine.i_(rv.get("FirstObserved"))) for rk, rv in (s.get("Replicas") or {}).items())
+        shards.append((int(k), reps))
+    hosts = sorted((dbengine.sid("a", k), dbengine.i_(h.get("Tick"))) for k, h in ((c.get("NodeHostImage") or {}).get("Nodehosts") or {}).items())
+    return now, shards, hosts
+
+
+def synth_json(now, shards, hosts):
+    view = {}
+    for sid_, reps in shards:
+        view[str(sid_)] = dict(ShardID=sid_, ConfigChangeIndex=1, Replicas={
+            str(rid): dict(ShardID=sid_, ReplicaID=rid, Address="a%d" % rid, IsLeader=False, Tick=t, FirstObserved=f) for (rid, t, f) in reps})
+    nh = {"a%d" % a: dict(Address="a%d" % a, RPCAddress="", Region="", Tick=t, PersistentLog=[], Shards={}) for (a, t) in hosts}
+    return json.dumps(dict(Tick=now, Shards={}, Regions=None, ShardImage=dict(Shards=view, ReplicasToKill=[]),
+                           NodeHostImage=dict(Nodehosts=nh), NodeHostInfo={}), separators=(",", ":"))
+
+
+def boundary_contexts(ttl, step):
+    """every stored-time pattern around the timeout for one replica / one host, and every (members, healthy, failed, waiting) count
+    for shards of 1..6 members with the healthy ones sitting exactly ON the timeout"""
+    out = []
+    for now in (0, step, ttl, ttl + step, 2 * ttl + 3 * step, 1000 * step):
+        ts = sorted(set(t for t in (0, 1, step, now - ttl - step, now - ttl - 1, now - ttl, now - ttl + 1, now - ttl + step, now - 1, now) if 0 <= t <= now))
+        pats = [(t, f) for t in ts for f in sorted(set([0, min(step, now), now]))]
+        shards = [(i + 1, [(7, t, f)]) for i, (t, f) in enumerate(pats)]
+        out.append(synth_json(now, shards, [(i + 1, t) for i, t in enumerate(ts)]))
+    for now in (ttl + step, 3 * ttl):
+        on, past = now - ttl, now - ttl - 1
+        for n in range(1, 7):
+            for k in range(n + 1):
+                for f in range(n - k + 1):
+                    reps = []
+                    for i in range(n):
+                        if i < k:
+                            reps.append((10 + i, on if i % 2 == 0 else now, step))
+                        elif i < k + f:
+                            reps.append((10 + i, past, step) if i % 2 == 0 else (10 + i, 0, 0))
+                        else:
+                            reps.append((10 + i, 0, step))
+                    out.append(synth_json(now, [(1, reps)], [(1, on), (2, past), (3, on + 1)]))
+    return out
+
+
+def split_class_tokens(t):
+    """parse the executor's token line into a structure"""
+    i = [0]
+
+    def u():
+        i[0] += 1
+        return t[i[0] - 1]
+
+    def ids():
+        return [u() for _ in range(u())]
+
+    def lists():
+        return dict(quorum=u(), avail=u(), ok=ids(), failed=ids(), start=ids())
+    res = dict(now=u(), shards={}, hosts={})
+    for _ in range(u()):
+        s = u()
+        d = lists()
+        d["repair"] = lists() if u() == 1 else None
+        res["shards"][s] = d
+    res["unavailable"] = ids()
+    for _ in range(u()):
+        a = u()
+        res["hosts"][a] = (u(), u())
+    return res
+
+
+def mon_classes(now, shards, hosts, got, ttl):
+    """the class spec on one context; got = parsed answer of the real code.  Returns a list of messages"""
+    out = []
+    if got["now"] != now:
+        out.append("context decoded with time %d instead of %d" % (got["now"], now))
+    unav = []
+    for s, reps in shards:
+        g = got["shards"].get(s)
+        if g is None:
+            out.append("shard %d missing from the classification" % s)
+            continue
+        ok = sorted(rid for rid, t, f in reps if t > 0 and now - t <= ttl)
+        failed = sorted(rid for rid, t, f in reps if (t > 0 and now - t > ttl) or (t == 0 and f == 0))
+        start = sorted(rid for rid, t, f in reps if t == 0 and f > 0)
+        n = len(reps)
+        for nm, e in (("healthy", ok), ("failed", failed), ("waiting-to-start", start)):
+            key = {"healthy": "ok", "failed": "failed", "waiting-to-start": "start"}[nm]
+            if g[key] != e:
+                out.append("shard %d at time %d with (id, last report, first seen) %s: %s members are %s, the property demands %s" % (s, now, reps, nm, g[key], e))
+        if sorted(g["ok"] + g["failed"] + g["start"]) != sorted(rid for rid, _, _ in reps):
+            out.append("shard %d: the three classes %s %s %s do not partition the members" % (s, g["ok"], g["failed"], g["start"]))
+        avail = 1 if 2 * len(ok) > n else 0
+        if g["avail"] != avail:
+            out.append("shard %d judged %s with %d healthy of %d members" % (s, "available" if g["avail"] else "unavailable", len(ok), n))
+        if g["quorum"] != n // 2 + 1:
+            out.append("shard %d: quorum of %d members computed as %d" % (s, n, g["quorum"]))
+        if not avail:
+            unav.append(s)
+        want_repair = bool(failed or start)
+        if (g["repair"] is not None) != want_repair:
+            out.append("shard %d %s handed to the scheduler for repair (failed %s, waiting %s)" % (s, "is" if g["repair"] else "is not", failed, start))
+        elif g["repair"] is not None:
+            rp = g["repair"]
+            if (rp["ok"], rp["failed"], rp["start"]) != (ok, failed, start) or rp["avail"] != avail or rp["quorum"] != n // 2 + 1:
+                out.append("shard %d: the scheduler's repair lists %s differ from the classes (%s, %s, %s; available %d)" % (s, rp, ok, failed, start, avail))
+    if got["unavailable"] != sorted(unav):
+        out.append("unavailable shards reported as %s, the healthy counts dictate %s" % (got["unavailable"], sorted(unav)))
+    for a, t in hosts:
+        g = got["hosts"].get(a)
+        if g is None:
+            out.append("host %d missing" % a)
+            continue
+        gap = now - t
+        if gap > ttl and (g[0] or g[1]):
+            out.append("NodeHost %d silent for %d > %d is still eligible (restore %d, placement %d)" % (a, gap, ttl, g[0], g[1]))
+        if gap < ttl and not (g[0] and g[1]):
+            out.append("NodeHost %d reported %d < %d ago but is not eligible (restore %d, placement %d)" % (a, gap, ttl, g[0], g[1]))
+    return out
+
+
+def run_classes(ck, binp, ctxs, ttl_hint):
+    """ctxs: list of (json, origin dict).  Runs the real classification code, the class-spec monitor and the model."""
+    s = ck.scratch()
+    fi, fo = os.path.join(s, "clsin.txt"), os.path.join(s, "clsout.txt")
+    open(fi, "w").write("".join("C %s\n" % js for js, _ in ctxs))
+    rc, out = ck.run_bin(binp, "TestVerifClasses", {"VERIF_IN": fi, "VERIF_OUT": fo}, timeout=900)
+    if rc != 0 or not os.path.exists(fo):
+        ck.violation("classes executor failed to run", {"kind": "executor", "rc": rc, "log_tail": out[-3000:]}, found_input=False)
+        return
+    outl = open(fo).read().splitlines()
+    P = tuple(int(x) for x in outl[0].split()[1:4])
+    ttl, step = P[0], P[1]
+    by = {}
+    for l in outl[1:]:
+        f = l.split()
+        by[int(f[0])] = f[1:]
+    cases, nviol = [], 0
+    for i, (js, origin) in enumerate(ctxs, start=1):
+        now, shards, hosts = ctx_of_json(js)
+        f = by.get(i, ["missing"])
+        boundary = any(t == 0 or now - t in (ttl - step, ttl, ttl + step) for _, reps in shards for _, t, _ in reps)
+        ck.count_case("cls" + js, nontrivial=boundary)
+        if f[0] != "ok":
+            if nviol < 3:
+                nviol += 1
+                ck.violation("classification of a scheduler context ended with %s" % f[0], dict(origin, kind="monitor:classes", engine="classes", context_json=js))
+            continue
+        toks = [int(x) for x in f[1:]]
+        bad = mon_classes(now, shards, hosts, split_class_tokens(toks), ttl)
+        if bad and nviol < 3:
+            nviol += 1
+            ck.violation(bad[0], dict(origin, kind="monitor:classes", engine="classes", context_json=js, real_code_answer_tokens=toks, all_messages=bad[:10],
+                                      params=dict(ttl=ttl, step=step)))
+        # the point now - last = ttl of a HOST is left free by the property: not compared with the model
+        free = set(a for a, t in hosts if now - t == ttl)
+        if free:
+            toks = drop_hosts(toks, free)
+            hosts = [(a, t) for a, t in hosts if a not in free]
+        cases.append((i, now, shards, hosts, toks))
+    ck.cov["contexts_classified_by_real_code"] = len(ctxs)
+    if not cases:
+        return
+    nsh = min(16, max(1, len(cases) // 40))
+    jobs, owner = [], []
+    for k in range(nsh):
+        mine = cases[k::nsh]
+        body = ["From stdpp Require Import gmap.", "From Drummer.Model Require Import DB DBRun DBClassesRun.", "Local Open Scope N_scope.",
+                "Definition P := (mkParams %d %d %d)." % P, "Definition cases : list bool := ["]
+        rows = []
+        for (_, now, shards, hosts, toks) in mine:
+            sh_ = "[" + "; ".join("(%d, [%s])" % (sid_, "; ".join("(%d,%d,%d)" % x for x in reps)) for sid_, reps in shards) + "]"
+            rows.append("check_case P (%d, %s, %s) %s" % (now, sh_, dbengine.cpairs(hosts), dbengine.cl(toks)))
+        body.append(";\n".join(rows))
+        body += ["].", "Definition M := Eval vm_compute in false_ix cases.", "Print M."]
+        jobs.append(("cls%s_%d" % (ck.pid.lower(), k), "\n".join(body) + "\n"))
+        owner.append(mine)
+    for (rc, out), mine in zip(ck.coq_eval_par(jobs, timeout=1500), owner):
+        bad = parse_coq_list_of_nat(out, "M") if rc == 0 else None
+        if bad is None:
+            ck.violation("model evaluation of the classes failed (coqc)", {"kind": "coq-eval", "rc": rc, "out_tail": out[-3000:]}, found_input=False)
+            return
+        if bad and not ck.violations:
+            i, now, shards, hosts, toks = mine[bad[0]]
+            ck.violation("model and real classification code disagree on %d contexts; no property monitor failed" % len(bad),
+                         dict(ctxs[i - 1][1], kind="correspondence", engine="classes", context_json=ctxs[i - 1][0], real_code_answer_tokens=toks), found_input=False)
+    ck.cov["contexts_validated_against_model"] = len(cases)
+
+
+def drop_hosts(toks, free):
+    st = split_class_tokens(toks)
+    nh = len(st["hosts"])
+    head = toks[:len(toks) - 3 * nh - 1]
+    keep = [(a, g) for a, g in st["hosts"].items() if a not in free]
+    out = head + [len(keep)]
+    for a, g in keep:
+        out += [a, g[0], g[1]]
+    return out
 
 
 def run(ck):
-    ck.cov["rule"] = ("PRNG traces (view profile, see C04) with tick runs of ttl/step-1, ttl/step, ttl/step+1, reports at logical time 0, replicas that "
-                      "never report, hosts that stop and resume; SCHEDULER_CONTEXT and SHARD_STATES (OK/UNAVAILABLE) observed after every event. "
-                      "Non-trivial = contains a tick run of exactly ttl/step-1, ttl/step or ttl/step+1 ticks; distinct by md5.")
-    ok = ck.proofs(["theories/DBRun.vo"])
+    ck.cov["rule"] = ("db engine: PRNG view traces (profile of C04: 2..6 hosts, 1..3 shards, evolving memberships, stale/pending/incomplete entries) "
+                      "and directed timelines (one shard of 1..6 members incl. even sizes, members that never report, hosts that stop and resume, "
+                      "entries naming a replica of another host, reports at logical time 0) with tick runs of ttl/step-1, ttl/step, ttl/step+1; "
+                      "SCHEDULER_CONTEXT and SHARD_STATES observed after every event. classes engine: every distinct context the DB produced plus "
+                      "hand-built contexts with each stored-time pattern {0,1,now-ttl-step,now-ttl-1,now-ttl,now-ttl+1,now-ttl+step,now-1,now} x "
+                      "first-seen {0,>0} and every (members 1..6, healthy, failed, waiting) count with the healthy members exactly on the timeout. "
+                      "Non-trivial = trace with a tick run of exactly ttl/step-1, ttl/step or ttl/step+1 ticks / context with a never-reported member "
+                      "or a member whose report age is ttl-step, ttl or ttl+step; distinct by md5.")
+    ok = ck.proofs(["theories/DBRun.vo", "theories/DBClassesRun.vo"])
     eng = dbengine.Engine(ck)
     eng.sort_ls = True
-    if not eng.build():
+    eng.binp = ck.go_test_bin("", ["root/zz_verif_db_test.go", "root/zz_verif_classes_test.go"], name="dbexec")
+    if eng.binp is None:
         return
     traces = dbprops.load_corpus("C05")
-    for _ in range(260 if ck.tier == "quick" else 12000):
+    quick = ck.tier == "quick"
+    for _ in range(150 if quick else 8000):
         traces.append(dbgen.gen_view_trace(ck.rng, length=ck.rng.randint(10, 40), strays=False))
+    for _ in range(110 if quick else 6000):
+        traces.append(gen_timeline(ck.rng, length=ck.rng.randint(8, 18)))
     if not ok:
         return
-    dbprops.run_db_property(ck, eng, traces, [lambda o, b, e: dbprops.mon_view(o, b, e, check=("c05",))], with_replicas=False, nontrivial=nontrivial)
-    ck.sample({"trace": dbengine.trace_to_json(traces[2][:8])})
+    results, _ = dbprops.run_db_property(ck, eng, traces, [mon_c05, lambda o, b, e: dbprops.mon_view(o, b, e, check=("c05",))],
+                                         with_replicas=False, nontrivial=nontrivial)
+    ck.sample({"trace": dbengine.trace_to_json(traces[-1][:8])})
+    if results is None:
+        return
+    # classes engine: the contexts the real DB produced ...
+    seen, ctxs = set(), []
+    cap = 1500 if quick else 40000
+    traces = [dbprops.tuplify(t) for t in traces]
+    for ti, ops in enumerate(traces):
+        obsA = results[ti]["obs"].get("A", {})
+        for oi, op in enumerate(ops):
+            r = obsA.get(oi)
+            if op[0] == "LC" and r and r.startswith("ok json"):
+                f = r.split(" ", 3)
+                if f[2] not in seen and len(ctxs) < cap:
+                    seen.add(f[2])
+                    ctxs.append((f[3], {"ops": dbengine.trace_to_json(ops[:oi + 1]), "failing_op_index": oi}))
+    # ... and the boundary contexts
+    for js in boundary_contexts(eng.params[0], eng.params[1]):
+        ctxs.append((js, {"hand_built_context": True}))
+    run_classes(ck, eng.binp, ctxs, eng.params[0])
